@@ -533,7 +533,7 @@ inline std::optional<std::chrono::system_clock::time_point> gen_time(S& s, bool 
         {
             int64_t ms = static_cast<int64_t>(s.below(1ull << 42)) - (1ll << 40);
             if (hostile && s.coin())
-                ms = static_cast<int64_t>(s.raw() >> 12);  // far future, still representable in ns
+                ms = static_cast<int64_t>(s.raw() % 9000000000000ull);  // up to year 2255: still representable in system_clock's ns
             return tp + milliseconds{ms};
         }
     }
